@@ -99,23 +99,32 @@ func (api *API) mapDecodeBasedOnType(ctx context.Context, mapVal any, value refl
 			sliceValue := sliceFromArray(value.Elem())
 			sliceValueType := sliceValue.Type()
 			if sliceValueType.AssignableTo(bytesType) {
-				innerTS, ok := api.typeSettingsRegistry.GetByType(valueType)
-				if !ok {
-					return ierrors.Errorf("missing type settings for interface %s", valueType)
-				}
+				// like the encoder, which looks up the type settings of the pointer type: without an object type
+				// the byte array was written as a bare hex string, with one as an object holding the hex string.
+				innerTS, _ := api.typeSettingsRegistry.GetByType(valueType)
 
-				fieldKey := keyDefaultSliceArray
-				if innerTS.fieldKey != nil {
-					fieldKey = *innerTS.fieldKey
-				}
+				var fieldValStr string
+				if innerTS.ObjectType() == nil {
+					str, ok := mapVal.(string)
+					if !ok {
+						return ierrors.Errorf("non string value in map when decoding a byte array, got %T instead", mapVal)
+					}
+					fieldValStr = str
+				} else {
+					fieldKey := keyDefaultSliceArray
+					if innerTS.fieldKey != nil {
+						fieldKey = *innerTS.fieldKey
+					}
 
-				m, ok := mapVal.(map[string]any)
-				if !ok {
-					return ierrors.Errorf("non map[string]any value in map when decoding a byte array, got %T instead", mapVal)
-				}
-				fieldValStr, ok := m[fieldKey].(string)
-				if !ok {
-					return ierrors.Errorf("non string value for key %s when decoding a byte array, got %T instead", fieldKey, m[fieldKey])
+					m, ok := mapVal.(map[string]any)
+					if !ok {
+						return ierrors.Errorf("non map[string]any value in map when decoding a byte array, got %T instead", mapVal)
+					}
+					str, ok := m[fieldKey].(string)
+					if !ok {
+						return ierrors.Errorf("non string value for key %s when decoding a byte array, got %T instead", fieldKey, m[fieldKey])
+					}
+					fieldValStr = str
 				}
 				byteSlice, err := DecodeHex(fieldValStr)
 				if err != nil {
